@@ -288,6 +288,7 @@ pub struct St {
     pub growth_commits: u64,
     pub increments: u64,
     pub free_runs: u64,
+    pub final_checks: u64,
     pub distinct: BTreeSet<u64>,
     pub nontrivial: BTreeSet<u64>,
 }
@@ -391,6 +392,21 @@ fn execute(sc: &Scenario, mode: Mode, path: &std::path::Path, st: &mut St) -> Re
         judge_c04(sc, &all, &g, n_workers, s0_reach, st, &mut viol);
     } else {
         judge_c09(sc, &all, &db, st, &mut viol);
+    }
+    // whatever the schedule, the file the threads leave behind must be sound
+    if viol.is_empty() {
+        if let Err(e) = db.check() {
+            viol.push((format!("final-state:db-check:{}", exec::fileck_sig(&e.to_string())), format!("after all threads finished DB::check reports: {}", e)));
+        }
+        let head = snap::read_prefix(path, 2 * sc.pagesize);
+        if let (Some(m), _) = fileck::choose_meta(&head, sc.pagesize) {
+            let img = snap::read_prefix(path, m.num_pages * sc.pagesize);
+            let rep = fileck::check(&img, sc.pagesize);
+            if !rep.ok() {
+                viol.push((format!("final-state:file-unsound:{}", exec::fileck_sig(&rep.errors[0])), format!("after all threads finished the file is unsound: {}", rep.errors[0])));
+            }
+        }
+        st.final_checks += 1;
     }
     drop(db);
     Ok(Outcome { trace, violations: viol })
@@ -822,6 +838,7 @@ pub fn run(ctx: &Ctx, prop: &str) -> Shard {
     shard.count("growing_commits", st.growth_commits);
     shard.count("committed_increments", st.increments);
     shard.count("free_running_executions", st.free_runs);
+    shard.count("final_file_soundness_checks", st.final_checks);
     shard.exhaustive = Some(false);
     let _ = exhausted_all;
     shard.set("dfs_bound", format!("preemption bound {} ; exhausted within budget: {}", p_bound, exhausted_all));
